@@ -119,6 +119,8 @@ proof! { #[kani::unwind(8)] fn c05_t_bids_n3_u1() { bids_step::<3, 1>() } }
 // (two-element update lists were tried - first element constrained so that the intermediate length stays concrete - and did
 //  not fit: 690 s and > 24 GB for the empty side. An update list is applied by `for_each(upsert_single)`, i.e. as the
 //  sequence of single upserts that the one-step harnesses cover by induction.)
+// (the same price twice inside ONE update list - last occurrence wins - was also tried with every intermediate length kept
+//  concrete: 600 s with unreachable cover witnesses for the empty side and > 20 GB for one level. Lists stay outside the claim.)
 // book level: an Update event applies both sides and takes the event's sequence / time; derived quantities are the map's
 proof! {
     #[kani::unwind(8)]
@@ -154,7 +156,8 @@ proof! {
     #[kani::unwind(8)]
     fn c05_q_book_snapshot() {
         let mut book = OrderBook::new(any_u64(), None, any_sorted::<1>(false), any_sorted::<1>(true));
-        let (bids1, asks1) = (any_sorted::<2>(false), any_sorted::<2>(true));
+        // asymmetric sides: one bid level, two ask levels
+        let (bids1, asks1) = (any_sorted::<1>(false), any_sorted::<2>(true));
         let sequence: u64 = any_u64();
         book.update(OrderBookEvent::Snapshot(OrderBook::new(sequence, None, bids1, asks1)));
         assert!(book.sequence == sequence, "C05: sequence is not the snapshot's");
@@ -163,9 +166,9 @@ proof! {
         let mut depth = 0;
         while depth <= 3 {
             let top = book.snapshot(depth);
-            let want = if depth < 2 { depth } else { 2 };
+            let (want_b, want_a) = (if depth < 1 { depth } else { 1 }, if depth < 2 { depth } else { 2 });
             assert!(top.sequence == sequence);
-            assert!(top.bids().levels() == &bids1[..want] && top.asks().levels() == &asks1[..want], "C05: depth-limited snapshot is not the prefix");
+            assert!(top.bids().levels() == &bids1[..want_b] && top.asks().levels() == &asks1[..want_a], "C05: depth-limited snapshot is not the prefix of each side");
             core::mem::forget(top);
             depth += 1;
         }
